@@ -62,6 +62,7 @@ type stdioClientTransport struct {
 
 	ctx       context.Context
 	cancel    context.CancelFunc
+	exited    chan struct{} // closed by processWatcher once the child has been reaped
 	closeOnce sync.Once
 	closed    atomic.Bool
 
@@ -178,6 +179,7 @@ func (t *stdioClientTransport) startProcess() error {
 	// Start background goroutines.
 	go t.readLoop()
 	go t.stderrLoop()
+	t.exited = make(chan struct{})
 	go t.processWatcher()
 
 	t.logger.Infof("Started stdio process: %s %v (PID: %d)",
@@ -563,6 +565,7 @@ func (t *stdioClientTransport) processWatcher() {
 	}
 
 	err := t.process.Wait()
+	close(t.exited)
 	if !t.closed.Load() {
 		if err != nil {
 			t.logger.Debugf("Process exited with error: %v", err)
@@ -626,11 +629,8 @@ func (t *stdioClientTransport) close() error {
 		}
 
 		// Wait a bit for graceful shutdown.
-		done := make(chan struct{})
-		go func() {
-			t.process.Wait()
-			close(done)
-		}()
+		// processWatcher is the only caller of Wait (a second concurrent Wait can block forever).
+		done := t.exited
 
 		select {
 		case <-done:
